@@ -503,6 +503,48 @@ def run_random(task):
                 rec2["cg"] = sorted(cover)
                 recs.append(rec2)
                 r2.close()
+        # --- multi-step: a complete commit-graph file is written (by dulwich's writer / git's), THEN the
+        #     repository learns a shallow boundary or graft points (files on disk) and is opened afresh:
+        #     the questions are about the history it presents now, the file still describes the objects
+        for writer in ("dulwich", "git") if have_git else ("dulwich",):
+            try:
+                write_commit_graph_file(disk_root, repo, h, par, writer, full)
+            except Exception as e:
+                res.setdefault("cg_skipped", []).append(f"{writer}+cut: {type(e).__name__}: {e}"[:120])
+                continue
+            cuts3 = {}
+            for c in rng.sample(range(2, n + 1), rng.randint(1, 2)):
+                if par[c - 1] and rng.random() < 0.4:
+                    cuts3[c] = ("shallow",)
+                else:
+                    cuts3[c] = ("graft", sorted(rng.sample(range(1, c), rng.randint(0, min(2, c - 1)))))
+            h3 = cut_on_disk(disk_root, h, cuts3)
+            g3 = h3.repo.object_store.get_commit_graph()
+            if g3 is None or len(g3) != n:
+                res.setdefault("cg_skipped", []).append(f"{writer}+cut: commit-graph not loaded")
+            else:
+                ex3 = L.Expect(n, h3.par, ts, None, anc=L.table_from_par(h3.par))
+                qs3 = ask(h3)
+                for c, _v in sorted(cuts3.items()):
+                    d3 = rng.randint(c, n)
+                    qs3 += [L.q_ff(h3, rng.randint(1, c), d3), L.q_mb(h3, c, [rng.randint(1, n)]), L.q_walk(h3, [d3], []),
+                            L.q_walk(h3, [d3], [], topo=1)]
+                for c in rng.sample(h3.branches, min(2, len(h3.branches))):
+                    qs3.append(L.q_pm(h3, c))
+                qs3.append(L.q_pc(h3, rng.randint(1, n)))
+                for q in qs3:
+                    ok, _ = ex3.check(q)
+                    q["pre"] = 1 if ok else 0
+                    q["cg"] = writer
+                res["cg"] += len(qs3)
+                res["mismatch"] += sum(1 for q in qs3 if q["pre"] == 0)
+                rec3 = h3.record(0, qs3)
+                rec3.update(mode=None, salt=seed, cgw=writer, cg=full)
+                recs.append(rec3)
+            h3.repo.close()
+            for f in ("shallow", os.path.join("info", "grafts")):
+                if os.path.exists(os.path.join(disk_root, f)):
+                    os.remove(os.path.join(disk_root, f))
         repo.close()
     res["records"] = recs
     return res
@@ -525,6 +567,32 @@ def cli_branch_queries(root, h, rng):
     q2 = {"k": "pc", "a": a, "s": list(h.branches), "m": 0, "g": [], "cli": 1,
           "r": run("--contains", h.ids[a - 1].decode())}
     return [q, q2]
+
+
+def cut_on_disk(root, h, cuts):
+    """The repository at `root` (bare) learns about shallow boundaries / graft points the way a fetch
+    --depth or an administrator leaves them: the `shallow` and `info/grafts` files.  Returns a copy of
+    h opened afresh on the files, presenting the view."""
+    from dulwich.repo import Repo
+    sh = [h.ids[c - 1] for c, v in sorted(cuts.items()) if v[0] == "shallow"]
+    gr = [(c, v[1]) for c, v in sorted(cuts.items()) if v[0] != "shallow"]
+    if sh:
+        with open(os.path.join(root, "shallow"), "wb") as f:
+            f.write(b"".join(x + b"\n" for x in sh))
+    if gr:
+        os.makedirs(os.path.join(root, "info"), exist_ok=True)
+        with open(os.path.join(root, "info", "grafts"), "wb") as f:
+            f.write(b"".join(b" ".join([h.ids[c - 1]] + [h.ids[p - 1] for p in ps]) + b"\n" for c, ps in gr))
+    h3 = L.Hist.__new__(L.Hist)
+    h3.__dict__.update(h.__dict__)
+    h3.repo = Repo(root)
+    h3.cuts = dict(cuts)
+    h3.obj_par = tuple(tuple(p) for p in h.par)
+    eff = [tuple(p) for p in h.par]
+    for c, v in cuts.items():
+        eff[c - 1] = () if v[0] == "shallow" else tuple(v[1])
+    h3.par = tuple(eff)
+    return h3
 
 
 def write_commit_graph_file(root, repo, h, par, writer, cover):
@@ -936,7 +1004,8 @@ def replay(ctx, path):
     cuts = {int(c): tuple(v) for c, v in (rec.get("cuts") or {}).items()} or None
     if cuts:
         par = tuple(tuple(p) for p in rec["obj_par"])
-    h = L.Hist(par, ts, rec.get("mode"), repo=repo, salt=rec.get("salt", 0), cuts=cuts)
+    disk_cuts = cuts if on_disk else None
+    h = L.Hist(par, ts, rec.get("mode"), repo=repo, salt=rec.get("salt", 0), cuts=None if on_disk else cuts)
     par = h.par
     if cuts:
         print(f"repository view differs from the commit objects: {cuts}")
@@ -945,7 +1014,11 @@ def replay(ctx, path):
     if on_disk:
         from dulwich.repo import Repo
         write_commit_graph_file(root, repo, h, par, cgw.split("-")[0], cover)
-        h.repo = Repo(root)
+        if disk_cuts:       # the order the recorded repository lived: commit-graph first, then the cut
+            h = cut_on_disk(root, h, disk_cuts)
+            par = h.par
+        else:
+            h.repo = Repo(root)
     elif cgw:
         L.attach_commit_graph(h, cover)
     k = q["k"]
